@@ -29,7 +29,7 @@ type P struct{}
 func (P) Rule() string {
 	return "each case builds a short chain on the real LinkApplication (trie or kv mode; transfers, token transfers, contract calls, account->confidential, confidential->confidential, confidential->account) and then commits one more block " +
 		"with a crash after the k-th durable write (Set/SetSync/Delete/batch commit on any of the seven databases) for EVERY k of that block's commit sequence; after the restart the block store height H' is read and " +
-		"world state (balances, nonces), spent key images, confidential output sequence, transaction index, receipts, execution result and balance records are compared with a clean twin at H', and one more block is built and committed; " +
+		"world state (balances, token balances, nonces, the storage slots of the genesis test contract), spent key images, confidential output sequence, transaction index, receipts, execution result and balance records are compared with a clean twin at H', and one more block is built and committed; " +
 		"non-trivial = the crashed block carries a confidential transaction or a contract call and k lies strictly inside the commit sequence; distinct = distinct (ops, k)"
 }
 
